@@ -3674,6 +3674,8 @@ impl GraphEngine {
             TensorValue::Scalar(ScalarValue::Int(current_timestamp_millis().cast_signed())),
         );
 
+        #[cfg(neumann_verif)]
+        tensor_store::verif_hooks::yield_point("graph.node.update.rmw");
         self.store.put(key, tensor)?;
 
         // Index new labels
@@ -3844,6 +3846,8 @@ impl GraphEngine {
             TensorValue::Scalar(ScalarValue::Int(current_timestamp_millis().cast_signed())),
         );
 
+        #[cfg(neumann_verif)]
+        tensor_store::verif_hooks::yield_point("graph.edge.update.rmw");
         self.store.put(key, tensor)?;
 
         // Index new values
